@@ -18,7 +18,7 @@ Proof. destruct b; reflexivity. Qed.
 
 Ltac lib_unfold f locals ret :=
   unfold f, locals, ret, call_den, call_vals;
-  cbn [den_prog_aux den_decl den nth app zalg a_const a_var a_arith a_cmp a_and a_or a_not a_ite].
+  cbn [den_prog_aux den_decl den nth app zalg a_const a_var a_arith a_cmp a_and a_or a_not a_ite fst snd].
 
 (* wrap32 of a literal is computed *)
 Ltac wrap_consts :=
